@@ -65,7 +65,7 @@ def _do_remove(obj, params, nums, form):
 @st.composite
 def _history_cases(draw, tier):
     big = tier == "thorough"
-    d = draw(gen.spline(max_p=5 if big else 4, max_extra=4 if big else 3, affine_range="maybe", normalize="maybe",
+    d = draw(gen.spline(ranges=("far", "tiny"), max_p=5 if big else 4, max_extra=4 if big else 3, affine_range="maybe", normalize="maybe",
                         vol_max_p=3, vol_max_extra=2))
     pdim = len(d["degree"])
     # exact power-of-two scaling of the control net: the property quantifies over all control nets, also far from unit size
@@ -222,7 +222,7 @@ def check_history(case, ctx):
 # ------------------------------------------------------------------------------------------------ refinement then removal
 @st.composite
 def _refine_cases(draw, tier):
-    d = draw(gen.spline(max_p=4, max_extra=3, affine_range="maybe", normalize="maybe", vol_max_p=2, vol_max_extra=1))
+    d = draw(gen.spline(ranges=("far", "tiny"), max_p=4, max_extra=3, affine_range="maybe", normalize="maybe", vol_max_p=2, vol_max_extra=1))
     pdim = len(d["degree"])
     return {"defn": d, "dir": draw(st.integers(0, pdim - 1)), "sel": draw(st.integers(0, 63)), "cnt": draw(st.integers(0, 7)),
             "all": draw(st.booleans())}
@@ -295,8 +295,8 @@ def check_refine_remove(case, ctx):
 # ------------------------------------------------------------------------------------------------ helper level
 @st.composite
 def _helper_cases(draw, tier):
-    d = draw(gen.spline(kinds=("curve",), max_p=6 if tier == "thorough" else 4, max_extra=5, affine_range="maybe",
-                        normalize=False))
+    d = draw(gen.spline(ranges=("far", "tiny"), kinds=("curve",), max_p=6 if tier == "thorough" else 4, max_extra=5, affine_range="maybe",
+                        normalize=False, long=True))
     return {"defn": d, "ins": draw(ins_desc()), "cnt": draw(st.integers(0, 7)), "rows": draw(st.integers(0, 3))}
 
 
